@@ -79,10 +79,47 @@ def import_registering_modules():
 
 # classes that do not use the generic field codec; they are hand-written in hci.py (item
 # count = number of bits set in a PHY mask).  They are exercised by the oracle only.
+U1, U2 = ('UInt', 1), ('UInt', 2)
+# name -> (head fields, index of the PHY mask in the head, fields of one per-PHY item).  The layout is
+# hand-written code in hci.py (from_parameters / __init__); it is pinned by the source pins
+# (tools/translate/c01_source.py) and the __init__ signature is checked against these names.
 CUSTOM_CLASSES = {
-    'HCI_LE_Set_Extended_Scan_Parameters_Command',
-    'HCI_LE_Extended_Create_Connection_Command',
+    'HCI_LE_Set_Extended_Scan_Parameters_Command': (
+        [('own_address_type', U1), ('scanning_filter_policy', U1), ('scanning_phys', U1)], 2,
+        [('scan_types', U1), ('scan_intervals', U2), ('scan_windows', U2)]),
+    'HCI_LE_Extended_Create_Connection_Command': (
+        [('initiator_filter_policy', U1), ('own_address_type', U1), ('peer_address_type', U1),
+         ('peer_address', ('AddrAfterType',)), ('initiating_phys', U1)], 4,
+        [('scan_intervals', U2), ('scan_windows', U2), ('connection_interval_mins', U2),
+         ('connection_interval_maxs', U2), ('max_latencies', U2), ('supervision_timeouts', U2),
+         ('min_ce_lengths', U2), ('max_ce_lengths', U2)]),
 }
+
+
+def phy_shape(cls):
+    import inspect
+    head, idx, row = CUSTOM_CLASSES[cls.__name__]
+    want = [n for n, _ in head] + [n for n, _ in row]
+    got = [p for p in inspect.signature(cls.__init__).parameters if p != 'self']
+    if got != want:
+        raise TranslationError(f'{cls.__name__}: __init__ parameters {got} differ from the modelled layout {want}')
+    return head, idx, row
+
+
+def check_lenient_return(hci, cmd, rp_info):
+    """a command whose parse_return_parameters is the hand-written field-by-field parse (source
+    pinned): every field a plain integer with default 0"""
+    import dataclasses as dc
+    for f in rp_info.fields:
+        if not (f[0] == 'One' and f[2][0] == 'Atom' and f[2][1][0] in ('UInt', 'Enum')):
+            raise TranslationError(f'{cmd.__name__}: lenient return parse over a non-integer field {f[1]}')
+    for f in dc.fields(rp_info.pycls):
+        if f.name in {x[1] for x in rp_info.fields} and f.name != 'status' and f.default != 0:
+            raise TranslationError(f'{rp_info.name}.{f.name}: default {f.default!r} is not 0')
+    import bumble.vendor.android.hci as android
+    if _func(cmd.__dict__['parse_return_parameters']) is not _func(
+            android.HCI_LE_Get_Vendor_Capabilities_Command.__dict__['parse_return_parameters']):
+        raise TranslationError(f'{cmd.__name__}: overrides parse_return_parameters with uncatalogued code')
 
 
 @dataclasses.dataclass
@@ -96,6 +133,7 @@ class ClassInfo:
     custom: bool = False
     custom_return: bool = False      # commands: parse_return_parameters is hand-written
     selector: list | None = None     # vendor sub-event classes: allowed values of the first field
+    phy: tuple | None = None         # custom classes: (head, mask index, item) with (name, aspec) entries
     ret_name: str | None = None      # commands: name of return_parameters_class
     status_first: bool = False       # return parameters: subclass of HCI_StatusReturnParameters
 
@@ -445,7 +483,7 @@ def load(strict=True):
                 if name in CUSTOM_CLASSES:
                     if cls.fields:
                         raise TranslationError(f'{name}: custom class now has a field list')
-                    info = ClassInfo(kind, code, name, cls, [], custom=True)
+                    info = ClassInfo(kind, code, name, cls, [], custom=True, phy=phy_shape(cls))
                 else:
                     _check_overrides(hci, cls, kind)
                     info = ClassInfo(kind, code, name, cls, fields_of(hci, cls.fields, name))
@@ -457,7 +495,8 @@ def load(strict=True):
                 if kind == KIND_COMMAND and issubclass(cls, hci.HCI_SyncCommand):
                     info.ret_name = add_rp(cls.return_parameters_class).name
                     if _owner(cls, 'parse_return_parameters') is not hci.HCI_SyncCommand:
-                        info.custom_return = True       # hand-written: oracle only
+                        check_lenient_return(hci, cls, rps[cls.return_parameters_class])
+                        info.custom_return = True       # the catalogued lenient parse
             except TranslationError as e:
                 if strict:
                     raise
@@ -579,22 +618,29 @@ def render(infos):
     lines.append(';\n'.join(rows))
     lines.append('].')
     lines.append('')
-    lines.append('(* classes registered but hand-written (not field-spec driven): kind, code *)')
-    lines.append('Definition custom_classes : list (Z * Z) := ['
-                 + '; '.join(f'({i.kind}, {i.code})' for i in infos if i.custom) + '].')
+    lines.append('(* hand-written PHY-mask commands: opcode, name, head fields, index of the mask, fields of one item *)')
+    lines.append('Definition phy_classes : list phycls := [')
+    rows = []
+    for i in infos:
+        if i.custom:
+            head, idx, row = i.phy
+            rows.append(f'  mkphy {i.code} "{i.name}" [' + '; '.join(f'F1 ({coq_aspec(a)})' for _, a in head)
+                        + f'] {idx}%nat [' + '; '.join(coq_aspec(a) for _, a in row) + ']')
+    lines.append(';\n'.join(rows))
+    lines.append('].')
     lines.append('')
     lines.append('(* command opcode -> (return parameters class name, first field is a status) *)')
     lines.append('Definition return_classes : list (Z * (string * bool)) := [')
     rp = {i.name: i for i in infos if i.kind == KIND_RETURN}
     rows = []
     for i in infos:
-        if i.kind == KIND_COMMAND and i.ret_name is not None and not i.custom_return:
+        if i.kind == KIND_COMMAND and i.ret_name is not None:
             rows.append(f'  ({i.code}, ("{i.ret_name}", {"true" if rp[i.ret_name].status_first else "false"}))')
     lines.append(';\n'.join(rows))
     lines.append('].')
     lines.append('')
-    lines.append('(* commands whose parse_return_parameters is hand-written *)')
-    lines.append('Definition custom_return_opcodes : list Z := ['
+    lines.append('(* commands whose return parameters are parsed field by field until the data runs out *)')
+    lines.append('Definition lenient_return_opcodes : list Z := ['
                  + '; '.join(str(i.code) for i in infos if i.kind == KIND_COMMAND and i.custom_return) + '].')
     lines.append('')
     lines.append('(* HCI_Event.vendor_factories in call order: (sub-event code, report ids) *)')
@@ -607,7 +653,7 @@ def render(infos):
                  + '; '.join(f'({k}, {i})' for k, i in EXTRA.get('objects', [])) + '].')
     lines.append('')
     lines.append('Definition registry : registry :=')
-    lines.append('  mkreg classes custom_classes return_classes custom_return_opcodes vendor_rules registry_objects.')
+    lines.append('  mkreg classes phy_classes return_classes lenient_return_opcodes vendor_rules registry_objects.')
     lines.append('')
     return '\n'.join(lines)
 
